@@ -165,7 +165,7 @@ func genWord(t *rapid.T, d *Dom) {
 		d.WordExtra = rapid.IntRange(1, 8).Draw(t, "wordextra")
 	}
 	if rapid.Bool().Draw(t, "isthreaded") {
-		d.Threaded = rapid.IntRange(1, 3).Draw(t, "threaded")
+		d.Threaded = rapid.SampledFrom([]int{1, 1, 2, 2, 3, 8, 255, 256, 300, 1024}).Draw(t, "threaded")
 	}
 }
 
